@@ -180,12 +180,94 @@ let history (mode : string) (ops : string list) : string * string =
     ^ ";json=" ^ render_json (s_json s) in
   (m, sp)
 
+(* ---- mode O: key OBJECTS (Model/HashObj.v).  The n-th operation passes the object 100n (inner
+   array 100n+1, elements 100n+2+j); suffix w = the key is passed in its one-element array form.
+   MODEL = the table over objects (content through erase, plus the identities handed out and the
+   bookkeeping itself); SPEC = the ordered map over the bare keys (no identities, no state). *)
+let mk_okey (k : key) (base : int) (wrap : bool) : okey =
+  let zi = z_of_int in
+  let els l = List.mapi (fun j a -> (zi (if base = 0 then 0 else base + 2 + j), a)) l in
+  let inner = zi (if base = 0 then 0 else base + 1) in
+  match k, wrap with
+  | KAtom a, false -> OAtom (zi base, a)
+  | KAtom a, true -> OArr (zi base, [(zi (if base = 0 then 0 else base + 2), a)])
+  | KArr l, false -> OArr (zi base, els l)
+  | KArr l, true -> OWrap (zi base, inner, els l)
+  | KWrap l, _ -> OWrap (zi base, inner, els l)
+let can_wrap = function KAtom _ -> true | KArr l -> List.length l <> 1 | KWrap _ -> false
+let wrapk = function KAtom a -> KArr [a] | KArr l -> KWrap l | k -> k
+
+let parse_oop (n : int) (s : string) : (okey, z) op =
+  let body = String.sub s 1 (String.length s - 1) in
+  let body, v = (match String.split_on_char '=' body with [b; v] -> b, v | [b] -> b, "0" | _ -> failwith ("bad op " ^ s)) in
+  let wrap = String.length body > 0 && body.[String.length body - 1] = 'w' in
+  let body = if wrap then String.sub body 0 (String.length body - 1) else body in
+  let k = mk_okey (!ukeys).(int_of_string body) (100 * n) wrap in
+  match s.[0] with
+  | 's' -> OSet (k, z_of_value v)
+  | 'd' -> ODel k
+  | _ -> failwith ("bad op " ^ s)
+
+let history_o (ops : string list) : string * string =
+  let ops = List.mapi (fun i s -> parse_oop (i + 1) s) ops in
+  let t = List.fold_left (fun t o -> ostep arrhash t o) (orun arrhash []) ops in
+  let s = List.fold_left (fun s o -> s_step keq unwrap s (erase_op o)) [] ops in
+  let ks = Array.to_list !ukeys in
+  let n = List.length ks and nops = List.length ops in
+  let top = (if nops < 2 * n then nops else 2 * n) + 1 in
+  let pos = List.init (top + 2) (fun i -> z_of_int (i - 1)) in
+  let cat = String.concat in
+  let oc = oceq and oh = ohash arrhash and ou = ounwrap in
+  let ekv (k, v) = (erase k, v) in
+  let omap f = function Ok a -> Ok (f a) | Err -> Err | Crash -> Crash in
+  let look wrap dflt f = cat "," (List.map (fun k ->
+      if wrap && not (can_wrap k) then "-" else show_optv dflt (f k wrap)) ks) in
+  let mget k w = hash_get oc oh ou t (mk_okey k 0 w) and mgetd k w = hash_get_default oc oh ou t (mk_okey k 0 w) in
+  let sget k w = s_lookup keq unwrap s (if w then wrapk k else k) in
+  let hps = List.map (fun p -> hpair oc oh ou t p) pos in
+  let rks = List.map (fun p -> range_key oc oh ou t p) pos in
+  let ids_of l = cat "," (List.concat (List.map (function Ok k -> [string_of_z (oid k)] | _ -> []) l)) in
+  let (bs, ko), nk = state_obs t in
+  let bstr = List.sort compare (List.map (fun (code, prs) ->
+      string_of_z code ^ ":" ^ cat "," (List.map (fun (k, v) -> string_of_z (oid k) ^ "/" ^ show_key (erase k) ^ "=" ^ show_value v) prs)) bs) in
+  let st = cat "|" bstr ^ "/ko:" ^ cat "," (List.map (fun k -> string_of_z (oid k)) ko) ^ "/n:" ^ string_of_z nk in
+  let m =
+    "len=" ^ show_oz (len t)
+    ^ ";keys=" ^ cat "," (List.map (fun k -> show_key (erase k)) (keys t))
+    ^ ";get=" ^ look false "!" mget ^ ";getd=" ^ look false "D" mgetd
+    ^ ";getw=" ^ look true "!" mget ^ ";getdw=" ^ look true "D" mgetd
+    ^ ";hp=" ^ cat "" (List.map (fun r -> show_okv (omap ekv r)) hps)
+    ^ ";rl=" ^ show_oz (len t)
+    ^ ";rk=" ^ cat "," (List.map (fun r -> show_ok (omap erase r)) rks)
+    ^ ";rp=" ^ cat "" (List.map (fun p -> show_okv (omap ekv (range_pair oc oh ou t p))) pos)
+    ^ ";ko=" ^ cat "," (List.map (fun k -> string_of_z (oid k)) (keys t))
+    ^ ";hpo=" ^ ids_of (List.map (omap fst) hps)
+    ^ ";rko=" ^ ids_of rks
+    ^ ";st=" ^ st
+    ^ ";str=" ^ render_str (let (es, cut) = str_obs oc oh ou t in (List.map ekv es, cut))
+    ^ ";json=" ^ render_json (omap (fun (es, ko) -> (List.map ekv es, List.map erase ko)) (json_obs oc oh ou t)) in
+  let sp =
+    "len=" ^ show_oz (s_len s)
+    ^ ";keys=" ^ cat "," (List.map show_key (s_keys s))
+    ^ ";get=" ^ look false "!" sget ^ ";getd=" ^ look false "D" sget
+    ^ ";getw=" ^ look true "!" sget ^ ";getdw=" ^ look true "D" sget
+    ^ ";hp=" ^ cat "" (List.map (fun p -> show_okv (s_pair s p)) pos)
+    ^ ";rl=" ^ show_oz (s_len s)
+    ^ ";rk=" ^ cat "," (List.map (fun p -> show_ok (s_range_key s p)) pos)
+    ^ ";rp=" ^ cat "" (List.map (fun p -> show_okv (s_pair s p)) pos)
+    ^ ";str=" ^ render_str (s_str s)
+    ^ ";json=" ^ render_json (s_json s) in
+  (m, sp)
+
 let () =
   iter_lines (fun line ->
     match split_tab line with
     | [id; body] ->
       (match split_sp body with
        | "U" :: _uid :: toks -> Printf.printf "%s\t%s\t-\n" id (header toks)
+       | "O" :: _uid :: ops ->
+         let (m, s) = history_o ops in
+         Printf.printf "%s\t%s\t%s\n" id m s
        | mode :: _uid :: ops ->
          let (m, s) = history mode ops in
          Printf.printf "%s\t%s\t%s\n" id m s
